@@ -242,7 +242,8 @@ bool FIXReader::read(f8String& to)	// read a complete FIX message
 					throw IllegalMessage(to, FILE_LINE);
 
 				const unsigned mlen(fast_atoi<unsigned>(val));
-				if (mlen == 0 || mlen > _max_msg_len - _bg_sz - _chksum_sz) // invalid msglen
+				if (strlen(val) > 6 // more digits than any acceptable length has: the conversion would wrap
+					|| mlen == 0 || mlen > _max_msg_len - _bg_sz - _chksum_sz) // invalid msglen
 					throw InvalidBodyLength(mlen);
 
 				// read the body
